@@ -97,6 +97,16 @@ PROPS = {
         "level_note": "trusted: Cache.tla's abstraction of from_ym (bound by the hit/miss/fill/refuse hook events), the guarded hooks, the OS scheduler for real interleavings; answers are compared with the uncached constructor / a fresh process of the same build, so a defect that is history-independent is out of scope here (C02/C03 cover it)",
         "technique": "TLA+ memo model: exhaustive interleavings with TLC, TLC-generated histories replayed into the code, hook-event trace validation",
     },
+    "C19": {
+        "title": "stem and branch attributes match the classical correspondence rules",
+        "mc": {"quick": [{"module": "MC_Cycles", "cfg": "MC_Cycles.cfg", "workers": 2}]},
+        "rule": "76 attribute tables enumerated over their complete domains (10 stems, 12 branches, 10x10 / 10x12 / 12x12 pairs, 60 pillars, 5 elements, 9 directions, 366 month-days, 28 mansions, 9 stars, 12 spirits, 6 Ren, 1440 (year stem, month branch, hour branch) triples for own/body sign); every table is non-trivial and distinct",
+        "exhaustive": {"quick": True, "thorough": True},
+        "assumptions": ["the rules of spec/Cycles.tla are the classical ones (each is written next to the rhyme or table it encodes and checked for its structural laws by MC_Cycles); the own-sign branch follows the 'count the month back from Zi, the hour forward to Mao' procedure and the body-sign branch is month number + hour number counted from Yin"],
+        "level_text": "TLC checks the first-principles rule module against its structural laws (involutions, inverse pairs, permutation rows, Nayin pairs, void branches, run-length tables: MC_Cycles over the sixty-cycle) and compares every attribute getter of the real code, enumerated over its complete finite domain, with the table generated from those rules; both tiers are exhaustive",
+        "level_note": "trusted: Cycles.tla as the statement of the classical rules, TLC, harness enumeration; names enter only where the name is the attribute (Nayin element, star colour, first character of a Peng Zu sentence)",
+        "technique": "TLA+ rule tables checked with TLC + exhaustive table comparison against the implementation",
+    },
 }
 
 NOT_APPLICABLE = {}
